@@ -47,16 +47,19 @@ impl QCfg {
         }
     }
     pub fn spins(&self) -> (u64, u64) {
+        // the crate's own defaults (public constants), not numbers copied from it: a tree that
+        // tunes them keeps every step bound and stuck-state threshold in proportion
+        let dflt = (mq::wait::DEFAULT_TRY_SPINS as u64, mq::wait::DEFAULT_YIELD_SPINS as u64);
         if self.futures {
             match (self.flavour, self.fut_spins) {
                 (Flavour::Broadcast, Some((a, b))) => (a as u64, b as u64),
-                _ => (50, 50),
+                _ => dflt,
             }
         } else {
             match self.wait {
                 WaitKind::Busy => (0, 0),
                 WaitKind::Yield(a, b) | WaitKind::Block(a, b) => (a as u64, b as u64),
-                _ => (50, 50),
+                _ => dflt,
             }
         }
     }
